@@ -521,6 +521,7 @@ func (w *ssWorld) connect(o ssConnectOpts) bool {
 
 func runC15(c *harness.Ctx) {
 	maybeYields(c)
+	steerPads(c, obfsref.SSMaxPad+1, obfsref.SSMaxHandshake-obfsref.SSTicketLen-2*obfsref.SSMacLen+1)
 	t := c.T
 	w := newSSWorld(c)
 	defer simos.Deactivate()
